@@ -123,6 +123,22 @@ def lin_diff(actual, expected, _cases=True):
     nd = nested_coeff_diff(actual, expected)
     if nd is not None:
         return ("coeff", nd[0], nd[1], nd[2])
+    # the same summand, but summed over an axis the definition keeps: c * sum(X, axes) where c * X is expected, everything else
+    # equal - each entry of the result is then the total over that axis instead of its own value
+    only_a, only_e = ma - me, me - ma
+    if only_a and len(only_a) == len(only_e) and all(actual.terms[m] == expected.terms[m] for m in ma & me):
+        pairs = []
+        for m1 in only_a:
+            a1 = m1[0][0] if len(m1) == 1 and m1[0][1] == 1 else None
+            if not (isinstance(a1, T.App) and a1.op == "sum" and len(a1.args) == 2):
+                break
+            inner = a1.args[0]
+            hit = [m2 for m2 in only_e if T.Poly({m2: T.Fraction(1)}) == inner and expected.terms[m2] == actual.terms[m1]]
+            if len(hit) != 1:
+                break
+            pairs.append((inner, a1.args[1]))
+        else:
+            return ("reduced", str(pairs[0][0])[:80], str(tuple(pairs[0][1])))
     if _cases:
         cd = case_diff(actual, expected)
         if cd is not None and cd[0] != "unknown":
@@ -681,7 +697,7 @@ def diff_verdict(d):
     """True (pass) / False (definite) / None (undecided) from lin_diff outcome."""
     if d[0] == "equal":
         return True
-    if d[0] in ("coeff", "dep-missing", "dep-extra", "clamped"):
+    if d[0] in ("coeff", "dep-missing", "dep-extra", "clamped", "reduced"):
         return False
     return None
 
@@ -695,6 +711,8 @@ def diff_msg(d):
         return "depends on %s, which it must not" % ", ".join(d[1])
     if d[0] == "clamped":
         return "equals the definition only while %s stays inside the clamp bounds %s; beyond them the value saturates" % (d[1], d[2])
+    if d[0] == "reduced":
+        return "%s is summed over the axes %s that the definition keeps: every entry holds the total over those axes (the other rows of the batch) instead of its own value" % (d[1], d[2])
     if d[0] == "unknown":
         return d[1]
     return "equal"
